@@ -11,6 +11,7 @@ import (
 	"reflect"
 	"sort"
 	"strings"
+	"sync/atomic"
 	"time"
 
 	"github.com/0xrawsec/sod"
@@ -137,8 +138,16 @@ var workDir = func() string {
 	return os.TempDir()
 }()
 
+var rootSeq int32
+
 func newRoot() string {
-	d, err := os.MkdirTemp(workDir, "case-")
+	// every other root carries characters that are special in glob patterns and regular
+	// expressions: a path is data, whatever it contains
+	pat := "case-"
+	if atomic.AddInt32(&rootSeq, 1)%2 == 0 {
+		pat = "case[1-2]+(x)-"
+	}
+	d, err := os.MkdirTemp(workDir, pat)
 	if err != nil {
 		panic(err)
 	}
@@ -748,7 +757,8 @@ func (e *Env) liveRef(ref int) (string, bool) {
 		return "", false
 	}
 	if ref < 0 {
-		ref = -ref
+		// counted from the most recently stored object
+		return e.m.live[len(e.m.live)-1-(-ref-1)%len(e.m.live)], true
 	}
 	return e.m.live[ref%len(e.m.live)], true
 }
@@ -939,6 +949,17 @@ func (e *Env) Exec(i int, op *Op) bool {
 		e.upsert(what, op.D, "")
 	case "upsertUUID":
 		id := seedUUID(op.Seed)
+		if op.Ref%5 == 1 {
+			// the uuid of a stored object in the other letter case: another name, another object
+			if lid, ok := e.liveRef(op.Ref); ok {
+				if alt := strings.ToUpper(lid); alt != lid {
+					id = alt
+				} else if alt := strings.ToLower(lid); alt != lid {
+					id = alt
+				}
+				e.flag("uuid-differs-from-a-stored-one-in-case-only")
+			}
+		}
 		if _, used := e.m.last[id]; used {
 			return false
 		}
@@ -1175,6 +1196,12 @@ func (e *Env) Exec(i int, op *Op) bool {
 			e.failf("%s: a rejected insert into a never-created collection left %d entries in the database root", what, len(ents))
 		}
 		e.flag("rejected-unknown-collection")
+	case "repairLive":
+		// Repair on a healthy live handle finds nothing to do and changes nothing
+		if err := e.db.Repair(&Doc{}); err != nil {
+			e.failf("%s: Repair on a healthy live handle: %v", what, err)
+		}
+		e.flag("repair-on-a-healthy-live-handle")
 	case "flushOne", "otherInsert", "other2Insert", "otherSwitch", "coldUpdate", "crashRepair", "switch", "switchBad":
 		// executed by the property's AfterOp hook (C10)
 	case "tick":
@@ -1519,6 +1546,22 @@ func (e *Env) execBulk(what string, op *Op) {
 func (e *Env) execQuery(what string, q *Query) {
 	set, cls := e.m.Eval(*q)
 	s := e.runQuery(e.db, *q)
+	if cls == EUnspec {
+		// a NaN probe: whatever the answer is, it is recorded (C12 compares it across storage
+		// configurations) and must be made of stored objects
+		objs, err := s.Collect()
+		var tags []string
+		for _, o := range objs {
+			if _, ok := e.m.objs[o.UUID()]; !ok {
+				e.failf("%s: query %s returned %s, which is not stored", what, q, o.UUID())
+			}
+			tags = append(tags, e.tag(o.UUID()))
+		}
+		sort.Strings(tags)
+		e.tracef("%s %s -> len=%d err=%s collect=%s %v", what, q, s.Len(), classify(s.Err()), classify(err), tags)
+		e.flag("query-nan-probe")
+		return
+	}
 	if cls != OK {
 		// the query cannot be evaluated: it must not return objects
 		if s.Err() == nil {
@@ -1566,6 +1609,10 @@ func (e *Env) execQuery(what string, q *Query) {
 	}
 	if q.Reverse {
 		s = s.Reverse()
+		if len(q.Leaves)%2 == 0 || (q.Limit != nil && *q.Limit%2 == 1) {
+			s = s.Reverse() // asking twice for the reversed order is still asking for it
+			e.flag("query-reverse-requested-twice")
+		}
 	}
 	wantN := len(set)
 	if q.Limit != nil {
@@ -1702,10 +1749,18 @@ func (e *Env) execQuery(what string, q *Query) {
 		base := e.runQuery(e.db, first)
 		l := q.Leaves[1]
 		v := l.V.Iface(docPathIndex[l.Path])
+		var derived *sod.Search
 		if l.Conn == "or" {
-			base.Or(l.Path, l.Op, v)
+			derived = base.Or(l.Path, l.Op, v)
 		} else {
-			base.And(l.Path, l.Op, v)
+			derived = base.And(l.Path, l.Op, v)
+		}
+		// what is done to the derived value (limit, order, expectations, consuming it) is not
+		// done to the value it was derived from
+		if derived != nil && base.Err() == nil {
+			derived.Limit(0).Reverse()
+			derived.Expects(len(e.m.objs) + 7)
+			derived.One()
 		}
 		if bset, bcls := e.m.Eval(first); bcls == OK && base.Err() == nil {
 			bobjs, berr := base.Collect()
@@ -2037,6 +2092,9 @@ func (e *Env) execSnapshot(what string, op *Op) {
 				if objs2, err2 := t2.Collect(); err2 == nil {
 					got2 := map[string]bool{}
 					for _, o := range objs2 {
+						if got2[o.UUID()] {
+							e.failf("%s: %s derived from the outstanding search %s after the writes returned %s twice", what, l.Conn, q, e.tag(o.UUID()))
+						}
 						if !allowed[o.UUID()] {
 							e.failf("%s: %s derived from the outstanding search %s after the writes returned %s, which is outside the snapshot", what, l.Conn, q, e.docLine(o))
 						}
@@ -2166,6 +2224,9 @@ func poison(d *Doc, aux map[string]interface{}) {
 		return
 	case "func":
 		d.Any = []interface{}{func() {}}
+		return
+	case "hooknan": // serialisable as passed, not after its own Transform
+		d.H = Hooks{Append: hookNaN}
 		return
 	}
 	switch aux["val"] {
